@@ -20,7 +20,7 @@ CFG = {
                   "DA1, Suspend and Resume write only baseline or advertised vocabulary; width_method; caps_exact / caps_sound / "
                   "reply_notices_exact over the start-up LTS (the loop of New running concurrently with the model of handleSequence): for "
                   "every reply stream, order, interleaving, queue capacity and probe outcome, each capability flag is set iff a reply "
-                  "advertising it arrived no later than the first DA1 reply (facts_* pin the loop, the probe, applyQuirks, every write of "
+                  "advertising it arrived no later than the first DA1 reply, and every stream has a complete run attaining it (startup_completes, caps_exact_attained; facts_* pin the loop, the probe, applyQuirks, every write of "
                   "the capability record and the Can* accessors to the source); writers_classified / gated_sequences_guarded / "
                   "request_writers_exact / new_image_by_protocol: every one of the ~130 terminal writers of the root package (regenerated "
                   "with its guard stack) is a start-up probe, a gated sequence under a guard testing its capability, an "
@@ -28,8 +28,8 @@ CFG = {
     "level_note": "Validated by correspondence only: the start-up LTS = the real New() on ~700 (quick) / 12000 reply streams and on capability "
                   "subsets (all 2^16 in thorough); API writers = sequences.go templates on the real calls. Modelled not verified: float64 "
                   "rounding (validated on all 2^24 colours in thorough); uniseg/runewidth; real time of the two start-up time-outs (labels); "
-                  "caps_exact assumes the loop ended by DA1 with nothing dropped (existence of such a run for every stream is played by the "
-                  "correspondence schedule, not proved); the RGB fallback inside render is gated by assignment and covered by render_gated, "
+                  "caps_exact assumes the loop ended by DA1 with nothing dropped (startup_completes / caps_exact_attained prove that every stream "
+                  "ending in a DA1 reply has such a run); the RGB fallback inside render is gated by assignment and covered by render_gated, "
                   "not by the guard classification; which sequences count as baseline xterm is a table of the spec.",
     "assumptions": ["IEEE-754 double rounding error << 1e-4 for channel differences <= 255",
                     "environment overrides (COLORTERM, VAXIS_FORCE_*) are unset: they are configuration, not terminal advertisement"],
